@@ -81,6 +81,8 @@ func (c *Ctx) c07List(t *c07Type) listResult {
 		width int64
 		form  string
 		field string
+		idx   *absint.Lin // index of the list element the written value comes from
+		st    *absint.State
 	}
 	var constRecs, genRecs []wrec
 	{
@@ -91,6 +93,49 @@ func (c *Ctx) c07List(t *c07Type) listResult {
 		st := absint.NewState()
 		recv := a.Unknown(t.enc.Params[0].Type(), "t", st)
 		a.NameFields(st, recv, t.enc.Params[0].Type(), "", 0)
+		// elemIndex: the list index of the element a written value is taken from (SSA walk to the IndexAddr)
+		var elemIndex func(v ssa.Value, st *absint.State, depth int) *absint.Lin
+		elemIndex = func(v ssa.Value, st *absint.State, depth int) *absint.Lin {
+			if v == nil || depth > 8 {
+				return nil
+			}
+			switch x := v.(type) {
+			case *ssa.IndexAddr:
+				if iv, ok := a.Val(st, x.Index).(absint.Int); ok {
+					l := iv.L
+					return &l
+				}
+			case *ssa.UnOp:
+				return elemIndex(x.X, st, depth+1)
+			case *ssa.Field:
+				return elemIndex(x.X, st, depth+1)
+			case *ssa.FieldAddr:
+				return elemIndex(x.X, st, depth+1)
+			case *ssa.Convert:
+				return elemIndex(x.X, st, depth+1)
+			case *ssa.ChangeType:
+				return elemIndex(x.X, st, depth+1)
+			case *ssa.Slice:
+				return elemIndex(x.X, st, depth+1)
+			case *ssa.Call:
+				for _, arg := range x.Call.Args {
+					if r := elemIndex(arg, st, depth+1); r != nil {
+						return r
+					}
+				}
+			case *ssa.Alloc:
+				for _, ref := range *x.Referrers() {
+					if sto, ok := ref.(*ssa.Store); ok && sto.Addr == ssa.Value(x) {
+						if r := elemIndex(sto.Val, st, depth+1); r != nil {
+							return r
+						}
+					}
+				}
+			}
+			return nil
+		}
+		var curVal ssa.Value
+		var curSt *absint.State
 		record := func(site ssa.Instruction, pos absint.Lin, width int64, form, desc string, at *absint.Atom) {
 			if !inLoop(site.Block()) {
 				return
@@ -103,7 +148,11 @@ func (c *Ctx) c07List(t *c07Type) listResult {
 			if m := elemFieldRe.FindStringSubmatch(src); m != nil {
 				field = m[1]
 			}
-			r := wrec{pos, width, form, field}
+			r := wrec{pos: pos, width: width, form: form, field: field}
+			if curVal != nil && curSt != nil {
+				r.idx = elemIndex(curVal, curSt, 0)
+				r.st = curSt.Clone()
+			}
 			if pos.IsConst() {
 				constRecs = append(constRecs, r)
 			} else {
@@ -117,6 +166,14 @@ func (c *Ctx) c07List(t *c07Type) listResult {
 			ss, ok := src.(*absint.Slice)
 			if !ok {
 				return
+			}
+			curSt = st
+			curVal = nil
+			if call, isC := site.(*ssa.Call); isC && len(call.Call.Args) == 2 {
+				curVal = call.Call.Args[1]
+				if el, isEl := singleAppended(call); isEl {
+					curVal = el
+				}
 			}
 			if len(ss.Base.Elems) > 0 {
 				for i, e := range ss.Base.Elems {
@@ -151,6 +208,10 @@ func (c *Ctx) c07List(t *c07Type) listResult {
 				return
 			}
 			w := map[string]int64{"16": 2, "32": 4, "64": 8}[name[strings.Index(name, "AppendUint")+10:]]
+			curSt, curVal = st, nil
+			if call, isC := site.(*ssa.Call); isC && len(call.Call.Args) > 0 {
+				curVal = call.Call.Args[len(call.Call.Args)-1]
+			}
 			var at *absint.Atom
 			if iv, isI := args[2].(absint.Int); isI {
 				at = iv.L.SingleAtom()
@@ -199,6 +260,22 @@ func (c *Ctx) c07List(t *c07Type) listResult {
 		pos += f.width
 	}
 	res.stride = pos
+	// every record is the record of the element at its own index: position == base + stride*index + k
+	for _, r := range genRecs {
+		if r.idx == nil || r.st == nil {
+			res.why = "the list index of a written element was not recognised"
+			return res
+		}
+		want, okm := (absint.Lin{}).AddMul(*r.idx, res.stride)
+		if !okm {
+			res.why = "index arithmetic"
+			return res
+		}
+		want = want.AddC(res.base + (r.pos.C - minC))
+		if !r.st.Entails(eqC(r.pos, want)) {
+			res.problems = append(res.problems, fmt.Sprintf("the encoder writes element [%s] at %s; the record of that element belongs at %d + %d*index + %d (an element is skipped, duplicated or out of place)", r.idx.String(), r.pos.String(), res.base, res.stride, r.pos.C-minC))
+		}
+	}
 	// a record must consist of named element fields, or be a single scalar
 	unnamed := 0
 	for _, f := range res.fields {
@@ -360,6 +437,7 @@ func (c *Ctx) c07List(t *c07Type) listResult {
 		}
 	}
 	res.decided = true
+	res.problems = dedupe(res.problems)
 	sort.Strings(res.problems)
 	return res
 }
